@@ -12,7 +12,7 @@ RULE = ('Complete enumeration of (supported protocol version, state, '
         'direction) tables, walked three times (oldest first, newest first, '
         'oldest first, then with one long-lived context per version used '
         'alternately oldest/newest, then with a single context whose '
-        'version is re-assigned in place) with every pass judged and the passes compared: every class in get_packets(context) must resolve '
+        'version is re-assigned in place - in that pass one long-lived object per packet class, bound to that context, must also report the id of the version now in force) with every pass judged and the passes compared: every class in get_packets(context) must resolve '
         'to a non-negative int id, ids pairwise distinct, and the id->class '
         'dict built by the matching PacketReactor must map every id to its '
         'owner, identically over repeated constructions.  A table is '
@@ -129,6 +129,41 @@ def check_table(ctx, version, direction, state, judged=True, context=None):
                               'reactor table has %d entries for %d classes'
                               % (len(table), len(assign)), case)
     return assign, bad
+
+
+def check_instances(ctx, version, direction, state, context, inst, assign):
+    """Long-lived packet OBJECTS bound to the context whose version is
+    re-assigned in place (a packet a user keeps and sends again after the
+    connection negotiated another version): the id each instance reports
+    must be the id of its class in the table of the version in force now."""
+    get_packets = dict(((d, s), g) for d, s, g in tables())[direction, state]
+    want = dict(assign or ())
+    try:
+        classes = sorted(get_packets(context), key=lambda c: c.__name__)
+    except Exception:
+        return                          # reported by check_table
+    for cls in classes:
+        key = (direction, state, cls)
+        try:
+            if key not in inst:
+                inst[key] = cls(context)
+            got = inst[key].id
+        except Exception as e:
+            got = e
+        ctx.count()
+        if cls.__name__ in want and not (
+                type(got) is int and got == want[cls.__name__]):
+            ctx.violation(
+                'instance-id v=%d %s/%s %s' % (version, direction, state,
+                                               cls.__name__),
+                'protocol %d %s %s: a %s object created earlier on a context '
+                'whose protocol_version has since been re-assigned to %d '
+                'reports id %r; the table of protocol %d gives its class id '
+                '0x%02X' % (version, direction, state, cls.__name__, version,
+                            got, version, want[cls.__name__]),
+                {'version': version, 'direction': direction, 'state': state,
+                 'passes': True})
+    ctx.cls('long-lived packet objects on a re-assigned context')
 
 
 # -- two connections building their tables at the same time ---------------------
@@ -386,6 +421,7 @@ def _run(ctx):
     live = {v: ConnectionContext(protocol_version=v) for v in supported}
     zig = [w for pair in zip(supported, supported[::-1]) for w in pair]
     moving = ConnectionContext(protocol_version=supported[0])
+    inst = {}
     for label, order in (('long-lived contexts used alternately', zig),
                          ('one context re-assigned in place', zig)):
         for v in order:
@@ -397,6 +433,9 @@ def _run(ctx):
             for direction, state, _ in tables():
                 ctx.count()
                 res = check_table(ctx, v, direction, state, context=c)
+                if c is moving:
+                    check_instances(ctx, v, direction, state, moving, inst,
+                                    first.get((v, direction, state)))
                 if res is not None and res[0] != first.get((v, direction,
                                                             state)):
                     ctx.violation(
